@@ -236,6 +236,18 @@ var textMuts = []textMut{
 	{"array-literal-out-of-bounds", `[3]string{"a", "b", "c"}`, `[3]string{"a", "b", "c", "d"}`},
 	{"array-literal-element-type", `[3]string{"a", "b", "c"}`, `[3]string{"a", 2, "c"}`},
 	{"array-literal-index-out-of-bounds", `[3]string{"a", "b", "c"}`, `[3]string{5: "a"}`},
+	{"array-literal-key-then-positional-out-of-bounds", `[3]string{"a", "b", "c"}`, `[3]string{2: "a", "b"}`},
+	{"array-literal-key-then-positional-out-of-bounds-late", `[3]string{"a", "b", "c"}`, `[3]string{"a", 1: "b", "c", "d"}`},
+	{"array-literal-duplicate-index-after-key", `[3]string{"a", "b", "c"}`, `[3]string{1: "a", 0: "b", "c"}`},
+	{"array-literal-negative-index", `[3]string{"a", "b", "c"}`, `[3]string{-1: "a"}`},
+	{"array-literal-non-constant-index", `[3]string{"a", "b", "c"}`, `[3]string{n0: "a"}`},
+	{"array-literal-index-type", `[3]string{"a", "b", "c"}`, `[3]string{"x": "a"}`},
+	{"slice-literal-duplicate-index-after-key", `[]int{1, 2, 3}`, `[]int{1: 1, 0: 2, 3}`},
+	{"slice-literal-negative-index", `[]int{1, 2, 3}`, `[]int{-1: 1, 2, 3}`},
+	{"map-literal-duplicate-key-value-type", `map[string]point{"o": {X: 0, Y: 0, Name: "o"}}`, `map[string]point{"o": {X: 0, Y: 0, Name: "o"}, "o": {}}`},
+	{"struct-literal-duplicate-field-keyed", `point{X: 1, Y: 2, Name: "p"}`, `point{X: 1, Y: 2, Name: "p", Y: 3}`},
+	{"struct-literal-too-many-keyed", `point{X: 1, Y: 2, Name: "p"}`, `point{X: 1, Y: 2, Name: "p", Z: 3}`},
+	{"struct-literal-positional-type", `point{3, 4, "q"}`, `point{3, 4, 5}`},
 	{"map-literal-missing-key", `map[string]int{"a": 1, "b": 2}`, `map[string]int{"a": 1, 2}`},
 	{"map-literal-key-type", `map[string]int{"a": 1, "b": 2}`, `map[string]int{1: 1, "b": 2}`},
 	{"map-literal-value-type", `map[string]int{"a": 1, "b": 2}`, `map[string]int{"a": "1", "b": 2}`},
